@@ -139,15 +139,20 @@ struct Vector {
 
     /// Appends the `value` as a new element to the end of this vector.
     void push_back(const T &value) {
+        // `value` may refer to an element of this vector (`v.push_back(v[0])`): copy it
+        // before the storage is replaced.
+        T copy(value);
         detach(inner->size + 1);
-        new (end()) T(value);
+        new (end()) T(std::move(copy));
         inner->size++;
     }
 
     /// Moves the `value` as a new element to the end of this vector.
     void push_back(T &&value) {
+        // See above: `value` may live in the storage that `detach` replaces.
+        T moved(std::move(value));
         detach(inner->size + 1);
-        new (end()) T(std::move(value));
+        new (end()) T(std::move(moved));
         inner->size++;
     }
 
